@@ -507,6 +507,11 @@ def main(argv):
             d = fields(rust_emit(h, [("replay", rp["program"], rp.get("args", []))])[0])
             print("implementation now returns (original/reloaded/re-reloaded/third re-emission):", d["R"])
             ok = all(len(r) == 4 and r[0] == r[1] == r[2] == r[3] for r in d["R"]) and bool(d["R"])
+            if rp.get("family") in ("EMIT-KEYS", "EMIT-BINDERS") or rp.get("expect_accepted"):
+                # closed by construction: must also be accepted as an output and emitted as text that parses as a function
+                print("accepted as an output (validate_portable_value):", d.get("PORT"), "| emitted:",
+                      c.unhex(d["SRC"]) if d.get("SRC", "-") != "-" else None, "| parses as:", d.get("AST1", "-")[:40])
+                ok = ok and d.get("PORT") == "1" and d.get("AST1", "REJECT").startswith("(ELam")
             return 0 if ok else 1
         return 0
 
@@ -576,6 +581,15 @@ def main(argv):
         else:
             mism.append((prog, "parse of the emitted text (AST1)", rep))
         # --- (ii) the property on the implementation alone
+        if closed and d.get("PORT") != "1" and ex is None and ex1 is None and a1[want] == "1":
+            # closed after capture by the model (whose inlined AST is what the implementation emitted) but refused by
+            # validate_portable_value: the clause "is emitted as a __blots_function source string"
+            stats["closed_but_refused"] = stats.get("closed_but_refused", 0) + 1
+            if stats["closed_but_refused"] <= 3:
+                res.violation("a closed-after-capture function is refused as an output (validate_portable_value fails)",
+                              {"kind": "impl-law", "expect_accepted": True, "program": prog, "args": args, "classes": rep,
+                               "observed": {"validate_portable_value_ok": d.get("PORT")}, "expected": "accepted",
+                               "rerun": "./check C05 --replay <this file>"})
         if not closed or d.get("PORT") != "1":
             stats["not_closed"] += 1
             continue
@@ -914,6 +928,10 @@ def main(argv):
                                 "emitted": c.unhex(parsed[i].get("SRC", "")) if parsed[i].get("SRC", "-") != "-" else None,
                                 "results": parsed[i]["R"]} for i in samp]
     res.coverage["traces_validated_against_impl"] = stats["ast_agree"] + beh_agree
+    # --- (v) EMIT-KEYS / EMIT-BINDERS (checks/c05_binders.py): keys over the identifier boundary at every emission site;
+    # the function's own parameter re-bound by an inner binder and used around it, under every defining environment
+    import c05_binders
+    c05_binders.run(sys.modules[__name__], h, cli, res, rng, tier, state, open_ids, want)
 
     # --- known findings
     wid = {"F10": ["F10"], "F11": ["F11", "F11b"], "F15": ["F15"], "F50": ["F50"], "F8": ["F8"], "F12-F14": ["F12-F14"],
